@@ -81,6 +81,7 @@ pub fn rewrite(prog: &Prog, w: u64, seed: u64, only: Option<&str>) -> (Prog, BTr
                             } else if gap > 0 && fl.emitted && want("address-to-gap", &mut mix) {
                                 applied.insert("address-to-gap".to_string());
                                 new_fields.push(Field {
+                                    sty: 0,
                                     vis: false,
                                     name: "_".into(),
                                     ty: Ty::Unk(gap),
